@@ -728,6 +728,9 @@ def builtin_method(I: Interp, base, name, args, kwargs, node=None):
             return SV(z3.simplify(z3.SuffixOf(pack(I.ctx, args[0], STR), base.t)), BOOL)
         if name == "startswith" and len(args) == 1 and isinstance(args[0], (str, SV)):
             return SV(z3.simplify(z3.PrefixOf(pack(I.ctx, args[0], STR), base.t)), BOOL)
+        if name == "replace" and len(args) == 3 and args[2] == 1 and all(isinstance(a, (str, SV)) for a in args[:2]):
+            # str.replace(old, new, 1) is SMT-LIB str.replace (first occurrence)
+            return SV(z3.Replace(base.t, pack(I.ctx, args[0], STR), pack(I.ctx, args[1], STR)), STR)
         return I.V.havoc_call(I, f"str.{name}", args, kwargs, node)
     raise Unsupported(f"method {name} on {base!r}")
 
